@@ -180,7 +180,10 @@ def check_cfg(ctx, fx, cfg):
             f = fx.fn(term)
             if not ctx.require(f is not None, "R07.4", "terminal:%s@%s" % (term, cfg), "builder terminal not found"):
                 continue
-            b = ctx.body(fx, f)
-            envs = [t for _, t in b.normal_calls() if (t.get("callee") or "").startswith("environment::Environment::<A, R>::") and (t.get("callee") or "").endswith(("from_channel", "create_loop", "create_loop_on_stream"))]
+            is_env = lambda t: (t.get("callee") or "").startswith("environment::Environment::<A, R>::") and (t.get("callee") or "").endswith(("from_channel", "create_loop", "create_loop_on_stream"))
+            # the wiring may sit in a function the terminal hands its builder to (spawn = spawn_owning().detach(), a shared private helper)
+            wf = graph.wiring_fn(fx, term, is_env) or f
+            b = ctx.body(fx, wf)
+            envs = [t for _, t in b.normal_calls() if is_env(t)]
             ok = len(envs) >= 2 and all(t["gargs"][:2] == ["A", want] for t in envs)
             ctx.require(ok, "R07.4", "terminal:%s@%s" % (term.split("::", 2)[-1], cfg), "the terminal must run the loop with the builder's own strategy (%s): %s" % (want, [t["gargs"][:2] for t in envs]), fn=term, site=f["loc"])
